@@ -247,6 +247,13 @@ func (c *Check) Finish() {
 		"violations":  len(c.violations),
 	}
 	b, _ := json.MarshalIndent(ev, "", " ")
+	if os.Getenv("VERIF_NO_EVIDENCE") != "" { // partial debugging runs must not overwrite evidence
+		fmt.Printf("%s %s (partial run, evidence not written): violations=%d wall=%.1fs\n", c.Prop, c.Tier, len(c.violations), wall)
+		if len(c.violations) > 0 {
+			os.Exit(1)
+		}
+		os.Exit(0)
+	}
 	os.MkdirAll(filepath.Join(verifRoot, "evidence"), 0o755)
 	if err := os.WriteFile(filepath.Join(verifRoot, "evidence", c.Prop+".json"), b, 0o644); err != nil {
 		machineryFail("writing evidence: %v", err)
